@@ -184,10 +184,14 @@ def extent_findings(dv: DecoderView):
     (construct, what, where-node)."""
     inst, bad = 0, []
     text_searches = [(c, r, lit) for c, r, lit in dv.searches() if r != dv.buf]
-    marker = dv.start_search()[2]
+    sc_, _sr, marker = dv.start_search()
+    runtime_marker = None
     if not isinstance(marker, (bytes, str)) or not marker:
-        raise AnalysisError("decode: the frame-start marker does not fold to a literal")
-    mtxt = marker.decode("latin-1") if isinstance(marker, bytes) else marker
+        # a marker bound at run time (e.g. derived from the protocol's BeginString): the next-frame search must use the same expression
+        runtime_marker = unparse(sc_.args[0])
+        mtxt = None
+    else:
+        mtxt = marker.decode("latin-1") if isinstance(marker, bytes) else marker
     for c, r, lit in text_searches:
         inst += 1
         if lit is None:
@@ -221,7 +225,14 @@ def extent_findings(dv: DecoderView):
                 if isinstance(x, ast.Call) and isinstance(x.func, ast.Attribute) and x.func.attr in ("find", "index") and x.args:
                     kinds_lits.add(dv.fold_str(x.args[0]))
     inst += 1
-    if dv.soh + mtxt not in kinds_lits:
+    if mtxt is not None:
+        next_ok = dv.soh + mtxt in kinds_lits
+    else:
+        # text searches whose pattern is `SOH + <the marker expression (decoded)>`: accept any search pattern that mentions the marker expression
+        core = re.sub(r"\.(decode|encode)\(.*\)$", "", runtime_marker)
+        next_ok = any(isinstance(x, ast.Call) and isinstance(x.func, ast.Attribute) and x.func.attr in ("find", "index") and x.args and core in unparse(x.args[0])
+                      and unparse(x.func.value) != dv.buf for vals in deriv.values() for v in vals for x in ast.walk(v))
+    if not next_ok:
         bad.append(("extent[next-frame marker]", "the frame extent is not bounded by the SOH-anchored start marker of the next frame", dv.fn))
     inst += 1
     if dv.soh + "10=" not in kinds_lits:
